@@ -25,7 +25,7 @@ PROP = "C06"
 CORPUS = os.path.join(os.path.dirname(os.path.dirname(os.path.dirname(os.path.abspath(__file__)))), "corpus", PROP)
 
 
-class Hang(Exception):
+class Hang(BaseException):
     pass
 
 
